@@ -156,6 +156,10 @@ def arch_name(arch):
 
 def _worker(job):
     seed, idx, profile, want = job
+    if profile.startswith("gen2:"):
+        import regen      # second-generation compilation: the OUTPUT of profile <base> is compiled again (harness/regen.py)
+
+        return regen.worker(job)
     import netgen
     import pipeline
 
@@ -193,6 +197,8 @@ def _worker(job):
 
         out["src_tags"] = netgen_ext.source_tags(net)
         res = pipeline.compile_net(data, opts, name=f"n{idx}")
+        if "post_compile" in want:
+            res = want["post_compile"](out, rng, res, data, opts)
         out.update(status=res.status, exc=(type(res.exc).__name__ + ": " + str(res.exc))[:300] if res.exc is not None else "",
                    tb=res.tb[-1500:], ret=res.ret, exc_site=exc_site(res.tb, res.exc))
         out["wrote_output"] = res.out_model is not None
